@@ -323,16 +323,16 @@ class History:
     def viol(self, key, what, s=None):
         self.ctx.violation(key, what, self.detail(s))
 
-    def latent(self):
-        self.ctx.count('latent:openquery-context-refuses-PullInstances')
-        self.ctx.extra['latent_observations'] = [
-            'with a query engine plugged into MainProvider.ExecQuery, '
-            'OpenQueryInstances registers its context with pull_type '
-            "'PullInstancesWithPath': PullInstances (the documented "
-            'operation for query sessions) is refused with '
-            'CIM_ERR_INVALID_ENUMERATION_CONTEXT and PullInstancesWithPath '
-            'is answered; unreachable in the shipped mock because ExecQuery '
-            'always raises CIM_ERR_NOT_SUPPORTED']
+    def latent(self, s=None):
+        # was tolerated as a latent defect while OpenQueryInstances
+        # registered the wrong pull type; repaired in /repo, so a refusal is
+        # a violation like for every other session kind
+        self.viol('pull.valid-context.refused.query-session',
+                  'with a query engine plugged into MainProvider.ExecQuery, '
+                  'PullInstances (the documented operation for query '
+                  'sessions) is refused with '
+                  'CIM_ERR_INVALID_ENUMERATION_CONTEXT for the context of an '
+                  'open OpenQueryInstances session', s)
 
     def open_sessions(self):
         return [s for s in self.sessions if s.state == 'open']
@@ -498,18 +498,9 @@ class History:
             raise
         except Exception as exc:  # pylint: disable=broad-except
             s.state = 'failed'
-            if spec['refuse'] == 'timeout' and isinstance(exc, ValueError):
-                # OperationTimeout beyond the server maximum: the refusal
-                # itself is outside the statement of C14 (side observation:
-                # the mock raises ValueError from a malformed format string
-                # instead of the CIMError it builds)
-                ctx.outcome('open-timeout-refusal-raised-ValueError')
-                ctx.extra['side_observations'] = [
-                    'Open...(OperationTimeout > OPEN_MAX_TIMEOUT) raises %s '
-                    'instead of CIMError' % short(
-                        '%s: %s' % (type(exc).__name__, exc), 160)]
-                self.table_check('after refused ' + op)
-                return
+            # (a ValueError from a malformed format string for an
+            # OperationTimeout beyond the server maximum used to be tolerated
+            # here as a side observation; it is repaired in /repo)
             ctx.unexpected(exc, op + ' with valid argument types',
                            self.detail(s), prefix='open:')
             return
@@ -583,7 +574,7 @@ class History:
                 # latent: OpenQueryInstances registers the context for
                 # PullInstancesWithPath; continue with the kind the server
                 # accepts so that the rest of the session is still checked
-                self.latent()
+                self.latent(s)
                 s.eff_kind = 'withpath'
                 return
             self.viol('pull.valid-context.refused',
@@ -872,7 +863,7 @@ class History:
                     if s.kind == 'query' and self.stubbed and \
                             s.eff_kind == 'query' and \
                             res.status_code == INVALID_CTX:
-                        self.latent()
+                        self.latent(s)
                         s.eff_kind = 'withpath'
                         budget += 1
                         continue
